@@ -2,6 +2,7 @@ package link_solicit
 
 import (
 	"bytes"
+	"encoding/binary"
 	"slices"
 
 	"github.com/aperturerobotics/bifrost/peer"
@@ -36,10 +37,15 @@ func ComputeSessionID(peerA, peerB peer.ID) []byte {
 	return sum[:HashSize]
 }
 
-// ComputeProtocolHash returns BLAKE3(session_id || protocol_id || context).
+// ComputeProtocolHash returns BLAKE3(session_id || len(protocol_id) || protocol_id || context).
+// The protocol ID is prefixed with its length (8 bytes, big endian) so that different
+// (protocol_id, context) pairs never hash the same bytes.
 func ComputeProtocolHash(sessionID []byte, protocolID protocol.ID, context []byte) []byte {
+	var pidLen [8]byte
+	binary.BigEndian.PutUint64(pidLen[:], uint64(len(protocolID))) //nolint:gosec
 	h := blake3.New()
 	h.Write(sessionID)
+	h.Write(pidLen[:])
 	h.Write([]byte(protocolID))
 	h.Write(context)
 
